@@ -122,7 +122,7 @@ def handle (f : String) (j : Json) : Option Json :=
     let url := s j "url"
     let infr := fieldBool j "infer_redirection" true
     let u := if infr then infer url else url
-    let parsedStr := ensureProtocol (strip u) "http".toList
+    let parsedStr := ensureProtocol (strip (stripControl u)) "http".toList
     let r := getNormalizedHostname (punyOf j) (fun _ => optStr (field j "host"))
       (fieldBool j "normalize_amp" true) infr url
     some (jlist [out parsedStr, jOptStr r])
@@ -168,7 +168,7 @@ def handleIO (f : String) (j : Json) : IO (Option Json) := do
       let url := s j "url"
       let infr := fieldBool j "infer_redirection" true
       let u := if infr then infer url else url
-      let parsedStr := ensureProtocol (strip u) "http".toList
+      let parsedStr := ensureProtocol (strip (stripControl u)) "http".toList
       let r := getFingerprintedHostname (envOf j trie) (fun _ => optStr (field j "host")) infr
         (fieldBool j "strip_suffix") url
       exceptJson (r.map fun h => jlist [out parsedStr, jOptStr h]))
